@@ -695,3 +695,45 @@ def c13(tier, seed):
                            "migrate_to_sched", "first_request_races"]
     c.required_points = ["MIGRATE_BEFORE_CLEAR", "MIGRATE_AFTER_TARGET_SET", "SCHEDULE_MIGRATED"]
     return c
+
+
+@prop("C14")
+def c14(tier, seed):
+    c = Check("C14", tier, seed)
+    q = tier == "quick"
+    c.rule = ("each case = one init..finalize scenario: 1-4 streams (basic/prio/randws schedulers) over 2 ABT_pool_user_def "
+              "pools + 2 legacy ABT_pool_def pools + 2 built-in pools with FIFO/LIFO/random pop policies; 20-300 ULTs/tasklets "
+              "(named and unnamed) that yield, change their associated pool (ABT_self_set_associated_pool, migrate_to_pool) "
+              "among all six pools, block on a mutex, get revived into other pools and freed; user unit objects live in an "
+              "arena restricted to 3 of the runtime's 256 hash buckets in 2/3 of the scenarios; in half of the scenarios some "
+              "streams run a user-defined scheduler that pops through ABT_pool_pop_thread / ABT_pool_pop in random pool order "
+              "and runs the unit (ABT_self_schedule / ABT_xstream_run_unit, with or without naming another pool) or pushes "
+              "it to another pool (ABT_pool_push_thread / ABT_pool_push); oracles: unit object state "
+              "machine with magic word and quarantine (create once per association, free once, no callback on a freed unit), "
+              "creates == frees and pushes == pops per pool at finalize, self and cross-stream ABT_unit_get_thread / "
+              "ABT_thread_get_unit agreement, exactly-once execution; distinct = distinct (variant, delay, stream count, "
+              "user scheds, colliding?, policy vector)")
+    c.assumptions = ["the user pool callbacks are the harness's own (spinlock-protected array queue); a defect in them would "
+                     "show up as a harness race under TSan"]
+    profiles = ["off", "uniform", hammer("PUSH_BEFORE_LOCK", "POP_NONEMPTY_SEEN", "YIELD_SAVED", "MIGRATE_BEFORE_CLEAR"),
+                "heavy"]
+    for i, s in enumerate(seeds(seed, 6 if q else 48)):
+        args = ["--seed", s, "--scenarios", 6 if q else 40, "--delay", profiles[i % 4], "--watchdog", 90 if q else 900]
+        if i % 3 == 2:
+            args += ["--squeeze", 2]
+        c.add(Run("h_upool", "mon", args, weight=5, tag="upool%d" % i))
+    for i, s in enumerate(seeds(seed, 1 if q else 6, salt=1)):
+        c.add(Run("h_upool", "asan", ["--seed", s, "--scenarios", 3 if q else 8, "--delay", profiles[i % 4],
+                                      "--watchdog", 120], weight=5, tag="asan%d" % i))
+    for i, s in enumerate(seeds(seed, 1 if q else 6, salt=2)):
+        c.add(Run("h_upool", "tsan", ["--seed", s, "--scenarios", 2 if q else 5, "--delay", profiles[i % 4],
+                                      "--watchdog", 120], weight=5, tag="tsan%d" % i))
+    c.nontrivial = lambda r: True
+    c.required_counters = ["create_unit_calls", "free_unit_calls", "mapping_checks", "set_associated_pool_calls",
+                           "migration_requests", "revives", "lookups_of_parked_unit_from_other_work_unit",
+                           "units_created_in_legacy_def_pool", "units_created_in_user_def_pool", "pools_fifo_policy",
+                           "pools_lifo_policy", "pools_random_policy", "user_sched_ran_popped_thread",
+                           "user_sched_ran_popped_unit", "user_sched_ran_after_reassociating_pool",
+                           "user_sched_pushed_to_other_pool"]
+    c.required_points = ["UNITMAP_REUSE_TOMBSTONE", "UNITMAP_APPEND", "UNITMAP_LONG_CHAIN"]
+    return c
